@@ -505,3 +505,43 @@ pub fn run(run: &Run) {
         fuzz_campaign(run, "ctx_json", 8, 200_000, 2048, Some("json.dict"));
     }
 }
+
+/// Oracle for arbitrary bytes as context JSON over the fixed matrix scheme
+/// (libFuzzer target `ctx_json` and artifact replay).
+pub fn check_document(bytes: &[u8]) -> CaseResult {
+    use std::sync::OnceLock;
+    static S: OnceLock<Scheme> = OnceLock::new();
+    let scheme: &'static Scheme = S.get_or_init(|| crate::c04::matrix_recipe().build());
+    let text = String::from_utf8_lossy(bytes).to_string();
+    let show = || json!({"document": text});
+    for way in 0..3 {
+        let mut ec: ExecutionContext<'_> = ExecutionContext::new(scheme);
+        let r = catch(|| match way {
+            0 => ec.deserialize(&mut serde_json::Deserializer::from_str(&text)).map_err(|e| e.to_string()),
+            1 => ec.deserialize(&mut serde_json::Deserializer::from_reader(text.as_bytes())).map_err(|e| e.to_string()),
+            _ => match serde_json::from_str::<Value>(&text) {
+                Ok(v) => ec.deserialize(v.into_deserializer()).map_err(|e: serde_json::Error| e.to_string()),
+                Err(e) => Err(e.to_string()),
+            },
+        });
+        match r {
+            Err(p) => return Err(Fail::new("deserialize-panic", format!("[{way}] {p}"), show())),
+            Ok(res) => {
+                all_deep_typed(scheme, &ec).map_err(|m| Fail::new("ill-typed-value-stored", m, show()))?;
+                if res.is_ok() && way == 0 {
+                    // accepted documents round-trip
+                    let again = catch(|| serde_json::to_string(&ec)).map_err(|p| Fail::new("serialize-panic", p, show()))?.map_err(|e| Fail::new("serialize-error", e.to_string(), show()))?;
+                    let mut ec2: ExecutionContext<'_> = ExecutionContext::new(scheme);
+                    let r2 = catch(|| ec2.deserialize(&mut serde_json::Deserializer::from_str(&again)).map_err(|e| e.to_string())).map_err(|p| Fail::new("deserialize-panic", p, show()))?;
+                    if let Err(e) = r2 {
+                        return Err(Fail::new("roundtrip-rejected", format!("re-serialisation {again} rejected: {e}"), show()));
+                    }
+                    if ec2 != ec {
+                        return Err(Fail::new("roundtrip-context-differs", again, show()));
+                    }
+                }
+            }
+        }
+    }
+    Ok(())
+}
